@@ -56,7 +56,7 @@ ASSUMPTIONS = [
 
 TIERS = {
     "quick": dict(bound=2, actx=2, rnd=[(14, 25)], reps=5, wide=None, shards=8),
-    "thorough": dict(bound=3, actx=3, rnd=[(150, 40), (150, 40), (60, 100)], reps=6, wide=2, shards=10),
+    "thorough": dict(bound=3, actx=3, rnd=[(100, 40), (100, 40), (40, 100)], reps=6, wide=2, shards=10),
 }
 
 
@@ -89,7 +89,15 @@ def dedup(paths, out):
                     continue
                 total += 1
                 ev = json.loads(line)
-                key = json.dumps([ev["cmd"], ev["pre"], ev["post"], ev["res"]], sort_keys=True)
+                if ev["cmd"]["t"] == "compile" and "set" in ev["cmd"]:
+                    # an explicit entry set is compiled: the judgement does not read the stored entries at all
+                    key = json.dumps([ev["cmd"], ev["res"]], sort_keys=True)
+                elif ev["cmd"]["t"] == "compile":
+                    # CompileJudge reads the entry bodies only: representatives are chosen modulo ModifyIndex
+                    strip = lambda st: [{k: v for k, v in e.items() if k != "mi"} for e in st["ents"]]
+                    key = json.dumps([ev["cmd"], strip(ev["pre"]), strip(ev["post"]), ev["res"]], sort_keys=True)
+                else:
+                    key = json.dumps([ev["cmd"], ev["pre"], ev["post"], ev["res"]], sort_keys=True)
                 if key not in seen:
                     seen[key] = (ev, src, behs)
     rows = list(seen.values())
@@ -216,7 +224,24 @@ def run(tier):
             meta = harness(binary, ["random", "-seed", str(s), "-n", str(n), "-len", str(length), "-out", tp, "-reps", str(T["reps"])], "random")
             return ("random:%d" % s, tp, random_histories(tp), meta), {"histories": n, "length": length, "seed": s, "events": meta["events"]}
 
+        # 3b. directed corpus: the histories of the recorded findings (findings/C15-*.json) stay part of every run
+        def corpus_run():
+            behs = []
+            fdir = os.path.join(vf.VERIF, "findings")
+            for fn in sorted(os.listdir(fdir)) if os.path.isdir(fdir) else []:
+                if fn.startswith(PID + "-") and fn.endswith(".json"):
+                    behs.append(json.load(open(os.path.join(fdir, fn)))["replay"]["history"])
+            if not behs:
+                return None
+            bf = os.path.join(work, "corpus.json")
+            with open(bf, "w") as f:
+                json.dump(behs, f)
+            tp = os.path.join(work, "corpus.ndjson")
+            meta = harness(binary, ["replay", "-in", bf, "-out", tp, "-auto", "-svcs", "a,b,c,d,e", "-reps", "24", "-seed", str(seed)], "corpus")
+            return ("corpus", tp, behs, meta)
+
         with ThreadPoolExecutor(max_workers=8) as ex:
+            f_corpus = ex.submit(corpus_run)
             f_gen = ex.submit(generate_and_replay)
             f_wide = ex.submit(model_check_wide) if T["wide"] else None
             f_direct = ex.submit(model_check_direct) if tier == "thorough" else None
@@ -229,10 +254,15 @@ def run(tier):
                 tr, c = fu.result()
                 traces.append(tr)
                 cov["random"].append(c)
+            if f_corpus.result():
+                traces.append(f_corpus.result())
+                cov["corpus"] = {"histories": len(traces[-1][2]), "events": traces[-1][3]["events"]}
             # 4. TLC judges every distinct event
             up = os.path.join(work, "unique.ndjson")
             rows, total = dedup([(src, tp, b) for src, tp, b, _ in traces], up)
+            vf.log("[c15] %.0fs: %d events recorded on the real code, %d distinct to judge" % (time.time() - t0, total, len(rows)))
             rejects = validate_sharded(rows, work, T["shards"])
+            vf.log("[c15] %.0fs: judged" % (time.time() - t0))
             if f_wide:
                 cov["mc"].append(f_wide.result())
             if f_direct:
@@ -281,7 +311,7 @@ def run(tier):
                     "outcome, stored-set size)",
             "event_kinds": kinds, "samples": samples,
             "model_check": cov["mc"], "generation": cov["gen"], "random": cov["random"],
-            "model_of_code_as_written": cov.get("model_of_code_as_written"),
+            "model_of_code_as_written": cov.get("model_of_code_as_written"), "corpus": cov.get("corpus"),
             "predicates": sorted(STORE_PREDS | COMPILE_PREDS), "predicate_doc": DOC,
             "rejected_events_by_predicate": pred_hits,
             "known_findings_matched": verdict.known_hit,
